@@ -229,3 +229,17 @@ Definition routing_tree_to_tables (routes : list (Z * tree)) (net_keys : list (Z
 Definition bits_of (s : list Z) : Z :=
   fold_left (fun a r => Z.lor a (Z.shiftl 1 (if r =? none_dir then 24 else r))) s 0.
 Definition entry_bits (e : entry) : Z * Z * Z * Z := (bits_of (e_route e), e_key e, e_mask e, bits_of (e_sources e)).
+
+(* ------------------------------------------------------------------------------------------------ *)
+(** * What the correspondence run prints (records as tuples) *)
+
+Definition entry_tuple (e : entry) : list Z * Z * Z * list Z := (e_route e, e_key e, e_mask e, e_sources e).
+
+Definition tables_digest (r : tres (list (chip * list entry)))
+  : tres (list (chip * list (list Z * Z * Z * list Z))) :=
+  match r with
+  | ROk t => ROk (map (fun ce => (fst ce, map entry_tuple (snd ce))) t)
+  | RMultisource k m c => RMultisource k m c
+  | ROther => ROther
+  | RFuel => RFuel
+  end.
